@@ -455,13 +455,12 @@ Proof.
 Qed.
 
 Lemma uq_upd_find cols old new i m k :
-  (has_null (proj cols old) = false -> am_find (proj cols old) m = Some i) ->
   am_find k (uq_upd cols old new i m) =
     if match uq_kf cols new with Some kn => key_eqb k kn | None => false end then Some i
     else if match uq_kf cols old with Some ko => key_eqb k ko | None => false end then None
          else am_find k m.
 Proof.
-  intros Hold. unfold uq_upd, uq_kf.
+  unfold uq_upd, uq_kf.
   set (ko := proj cols old) in *. set (kn := proj cols new) in *.
   destruct (has_null kn) eqn:Nn, (has_null ko) eqn:No, (key_eqb ko kn) eqn:E; cbn [negb andb];
     rewrite ?am_find_insert, ?am_find_remove;
